@@ -239,6 +239,31 @@ def _row_consistency(col, rule="C15.R4"):
     ok = len(st) == 1 and len(setk) == 1 and setk[0][1]["x"] == ("attr", SOLVER, "x") and cfg.dominates(st[0], setk[0][0].nid)
     col.add(rule, f"{q}#knobs-set-from-solver-x-after-solver-step", ok, sx.loc(setk[0][0]) if setk else sx.loc(sx.fn),
             "after each solver step the containers receive the solver's current x", "")
+    # ... and set_knobs_from_x does write them: each active knob receives its coordinate of _x_to_knobs(x)
+    kx = octx(repo, "Optimize", "set_knobs_from_x")
+    conv = S.mcall(ERR, "_x_to_knobs", kx.P(0))
+    wr, V_, VL = [], None, None
+    for VL in (S.sattr("vary"), ("attr", ERR, "vary")):     # the optimizer's list is the merit function's list
+        V_ = ("elem", VL)
+        kt = ("sub", ("attr", V_, "container"), ("attr", V_, "name"))
+        wr = [e for e in kx.of_kind("store") if e.target == kt]
+        if wr:
+            break
+    if wr:
+        okw = all(e.value in (("elem", conv), ("sub", conv, ("index", VL))) and
+                  [c for c in kx.conds(e.nid)] in ([("attr", V_, "active")], []) for e in wr) and \
+            all(any(VL in (l[2] if S.is_call_of(l, ("glob", "zip")) else (l,)) for l in kx.sym.loops(e.nid)) for e in wr)
+        facts = "; ".join(f"{S.show(e.value)[:50]} under {[S.show(c) for c in kx.conds(e.nid)]}" for e in wr)
+    else:
+        via = kx.calls_some(("call", ("attr", ERR, S.V("m", lambda t: t in ("_set_x", "__call__"))), S.ANY, S.ANY)) or \
+            kx.calls_some(("call", ERR, S.ANY, S.ANY))
+        other = [e for e in kx.of_kind("store") if e.target[:1] == ("sub",) and e.target[1][:1] == ("attr",) and e.target[1][2] == "container"]
+        if via or other:
+            raise AnalysisError("Optimize.set_knobs_from_x: the knobs are written through the merit function or over an iteration that is not "
+                                "`self.vary` itself (cannot decide)")
+        okw, facts = False, "no store to vv.container[vv.name]"
+    col.add(rule, "Optimize.set_knobs_from_x#writes-each-active-knob", okw, kx.loc(wr[0]) if wr else kx.loc(kx.fn),
+            "set_knobs_from_x stores coordinate i of _x_to_knobs(x) into knob i, for every active knob", facts)
     pen = ap.get("penalty", [])
     okp = len(pen) == 1 and bool(st) and cfg.dominates(st[0], pen[0][0].nid) and pen[0][1] == ("attr", SOLVER, "penalty_after_last_step")
     col.add(rule, f"{q}#penalty-of-the-accepted-point", okp, sx.loc(pen[0][0]) if pen else sx.loc(sx.fn),
